@@ -394,8 +394,12 @@ Definition update_mode (s : state) (c : rmode) (f : fault) : state * bool :=
     if ok then (set_mm s c, true) else (s, false)
   else (set_mm s c, true).
 
-Definition do_set_mode (s : state) (c : rmode) (f : fault) : state * res :=
-  if negb (mode_valid (rm_mode c)) then (s, RInvalid) else
+(* every accepted spelling of the mode is stored, served and handed to the mode manager in its internal form (fix: the mode manager only
+   knows "majority" and "dr-auto-sync") *)
+Definition norm_rmode (c : rmode) : rmode := RMode (norm_mode_str (rm_mode c)) (rm_label c).
+Definition do_set_mode (s : state) (c0 : rmode) (f : fault) : state * res :=
+  if negb (mode_valid (rm_mode c0)) then (s, RInvalid) else
+  let c := norm_rmode c0 in
   let old := c_rm (served s) in
   let '(s1, ok) := persist (set_conf s (with_rm (served s) c)) f 0 in
   if negb ok then (set_conf s1 (with_rm (served s1) old), RStorage)
@@ -568,7 +572,7 @@ Definition mon_step (unk : bool) (o : op) (prev cur : obs) : list string :=
        | ODelLabel t k v _ => lp_eqb (c_lp sv) (lp_delete (c_lp pv) t k v)
        | OSetVersion (Some v) _ => ver_eqb (c_ver sv) v
        | OSetVersion None _ => true
-       | OSetMode c _ => rm_eqb (c_rm sv) c
+       | OSetMode c _ => rm_eqb (c_rm sv) (norm_rmode c)
        | OSetLabelMap m _ => lp_eqb (c_lp sv) m
        | OSetStoreLimit id t rate dflt _ => conf_eqb (with_limits sv []) (with_limits pv []) && conf_eqb sv (with_limits sv (lim_set (c_limits pv) id t rate dflt))
        | OSetAllLimits t rate _ => conf_eqb sv (with_limits sv (lim_all (c_limits pv) t rate))
